@@ -800,10 +800,10 @@ open CssVerif.EncTok
 open CssVerif.Gen.C05 (productions reIDENT reFUNCTION reDIMENSION reHASH reATKEYWORD reSTRING reINVALID reCHAR reS
   rePERCENTAGE reNUMBER)
 
-/-- the productions whose first match is proved to be kept: everything but URI, UNICODE-RANGE, COMMENT (open: see the
+/-- the productions whose first match is proved to be kept: everything but URI, UNICODE-RANGE (open: see the
 comment below), FUNCTION (`escapecss_keeps_function`) and CHAR (`escapecss_keeps_char`) -/
 def keptProductions : List String :=
-  ["S", "IDENT", "DIMENSION", "PERCENTAGE", "NUMBER", "HASH", "STRING", "INVALID", "ATKEYWORD", "INCLUDES",
+  ["S", "IDENT", "DIMENSION", "PERCENTAGE", "NUMBER", "HASH", "COMMENT", "STRING", "INVALID", "ATKEYWORD", "INCLUDES",
    "DASHMATCH", "PREFIXMATCH", "SUFFIXMATCH", "SUBSTRINGMATCH", "CDO", "CDC"]
 
 /-- every ASCII-compatible encoding gives a `SyntaxRep` -/
@@ -826,10 +826,10 @@ theorem asciiRep_syntax (rep : Nat → Bool) (ha : AsciiRep rep) : SyntaxRep rep
 
 /-- the checker accepts the name productions of the regenerated table (and the ASCII-only ones) -/
 theorem productions_checked : ∀ p ∈ productions, p.1 ∈ keptProductions → p.1 ≠ "STRING" → p.1 ≠ "INVALID" →
-    firstPres p.2 = true := by decide
+    p.1 ≠ "COMMENT" → firstPres p.2 = true := by decide
 
 /-- T8.4c `escapecss_keeps_first_match_partial`: for every production of the regenerated table listed in
-`keptProductions` — S, IDENT, DIMENSION, PERCENTAGE, NUMBER, HASH, STRING, INVALID, ATKEYWORD and the fixed
+`keptProductions` — S, IDENT, DIMENSION, PERCENTAGE, NUMBER, HASH, COMMENT, STRING, INVALID, ATKEYWORD and the fixed
 lexemes — every target encoding that can represent ASCII, and every guarded text `s` (the text from the tokenizer's
 `pos` on): `pattern.match` on the escaped text finds the image of what it found on the original, and nothing if it
 found nothing. So a non-ASCII character replaced by `\HEX␠` inside a token of these types keeps the token's boundaries,
@@ -839,18 +839,21 @@ FULL STATEMENT (not proved): the same for all 21 productions and with the guard 
 (no character to be escaped directly after an UNESCAPED backslash) instead of "after any backslash"; then
 `Tok.tokenize (escape rep s)` has the items of `Tok.tokenize s` with escaped spans. Open: URI, UNICODE-RANGE (their
 `\55 \52 \4c` letter escapes can match the head of an escape `_escapecss` writes, e.g. `\550 `, so a sub-pattern is
-not kept although the production is), COMMENT (the tail after `[^*]*` needs the `Tight` argument used for STRING). -/
+not kept although the production is; the unquoted `url(` body reaches the same end by several splits). -/
 theorem escapecss_keeps_first_match_partial (rep : Nat → Bool) (ha : AsciiRep rep) :
     ∀ p ∈ productions, p.1 ∈ keptProductions → ∀ s : List Nat, guard rep s = true → (∀ c ∈ s, c ≤ maxUnicode) →
       p.2.first (escape rep s) = (p.2.first s).map (elen rep s) := by
   intro p hp hk s hg hm
   have hS : ∀ p ∈ productions, p.1 = "STRING" → p.2 = reSTRING := by decide
   have hV : ∀ p ∈ productions, p.1 = "INVALID" → p.2 = reINVALID := by decide
+  have hC : ∀ p ∈ productions, p.1 = "COMMENT" → p.2 = Gen.C05.reCOMMENT := by decide
   by_cases h1 : p.1 = "STRING"
   · rw [hS p hp h1]; exact string_firstPres rep ha s ⟨hg, hm⟩
   · by_cases h2 : p.1 = "INVALID"
     · rw [hV p hp h2]; exact invalid_firstPres rep ha s ⟨hg, hm⟩
-    · exact firstPres_sound rep ha p.2 (productions_checked p hp hk h1 h2) s ⟨hg, hm⟩
+    · by_cases h3 : p.1 = "COMMENT"
+      · rw [hC p hp h3]; exact comment_firstPres rep ha s ⟨hg, hm⟩
+      · exact firstPres_sound rep ha p.2 (productions_checked p hp hk h1 h2 h3) s ⟨hg, hm⟩
 
 /-- FUNCTION is IDENT followed by `(` (`tokenize2.py:196-202` skips an IDENT that is directly followed by `(`): it is
 kept where the identifier in front of the parenthesis is, and absent where there is no identifier -/
@@ -945,6 +948,9 @@ example : guard repAscii [0xE4, 0x62, 0x20] = true ∧ reIDENT.first [0xE4, 0x62
 /-- `"ä"x`: STRING takes 3; escaped `"\E4 "x`: 6 -/
 example : guard repAscii [0x22, 0xE4, 0x22, 0x78] = true ∧ reSTRING.first [0x22, 0xE4, 0x22, 0x78] = some 3 ∧
     reSTRING.first (escape repAscii [0x22, 0xE4, 0x22, 0x78]) = some 6 := by decide
+/-- `/*ä**/x`: COMMENT takes 6; escaped `/*\E4 **/x`: 9 -/
+example : Gen.C05.reCOMMENT.first [0x2F, 0x2A, 0xE4, 0x2A, 0x2A, 0x2F, 0x78] = some 6 ∧
+    Gen.C05.reCOMMENT.first (escape repAscii [0x2F, 0x2A, 0xE4, 0x2A, 0x2A, 0x2F, 0x78]) = some 9 := by decide
 /-- the guard is needed (C08-escaped-unrepresentable at token level): `\ä;` is one IDENT of 2 characters, written
 `\\E4 ;` it is the IDENT `\\E4` of 4 characters followed by white space — the token boundary moved -/
 example : guard repAscii [0x5C, 0xE4, 0x3B] = false ∧ reIDENT.first [0x5C, 0xE4, 0x3B] = some 2 ∧
